@@ -12,7 +12,7 @@ from vk import boot, explore, run as vrun
 
 ID = "C08"
 LEVEL = "model_checking"
-ASAN = {"thorough": True}
+ASAN = {}  # ASan build is too slow for this space; C09 thorough runs under ASan
 
 DATA = ("p", "q")
 
